@@ -147,6 +147,15 @@ func (x *Explorer) doAppend(st *State, s0, t0 Val) Val {
 		return VSlice{Arr: ref, Off: s.Off, Len: nl, Cap: c, Elem: s.Elem}
 	}
 	// symbolic number of appended elements: quantified description of the new row
+	var tval *Term
+	if isByteSlice(types.NewSlice(s.Elem)) && s.Len.IsLit() && s.Len.Int.Sign() == 0 {
+		tval = st.bval(t) // append(empty, t...) is a copy of t
+	}
+	defer func() {
+		if tval != nil {
+			st.assume(Eq(st.bval(VSlice{Arr: ref, Off: s.Off, Len: nl, Cap: c, Elem: s.Elem}), tval))
+		}
+	}()
 	for i, name := range names {
 		arr := st.heapGet(name, ArrSort(ArrSort(sorts[i])))
 		row := Select(arr, s.Arr)
@@ -373,8 +382,15 @@ func (x *Explorer) libModel(st *State, f *Frame, ins ssa.Instruction, key string
 	case "errors.Join":
 		s := args[0].(VSlice)
 		r := st.freshVal(sig.Results().At(0).Type(), "errjoin").(VIface)
-		if s.Len.IsLit() && s.Len.Int.Sign() == 0 {
-			return VIface{Tag: IntLit(0), Val: IntLit(0)}, true
+		if s.Len.IsLit() && s.Len.Int.IsInt64() && s.Len.Int.Int64() <= 6 {
+			// nil exactly when every argument is nil
+			anyT := types.Universe.Lookup("error").Type()
+			tagArr := st.heapGet("[]"+e.typeKey(anyT)+"#tag", ArrSort(ArrSort(SInt)))
+			var nonNil []*Term
+			for i := int64(0); i < s.Len.Int.Int64(); i++ {
+				nonNil = append(nonNil, Neq(Select(Select(tagArr, s.Arr), Add(s.Off, IntLit(i))), IntLit(0)))
+			}
+			st.assume(Eq(Neq(r.Tag, IntLit(0)), Or(nonNil...)))
 		}
 		st.note("errors.Join: chain/message sets not modelled")
 		return r, true
